@@ -1,0 +1,139 @@
+//go:build verif
+
+package buffer
+
+// Contracts for the serialization primitives (property C08), count level: how many bytes a call
+// reports, against how many it moved.  Comment-only file, read by /verif/cmd/lvc.
+//
+// The standard library's reader and writer interfaces carry their documented behaviour as assumed
+// contracts (io.Writer: "Write must return a non-nil error if it returns n < len(p)"; io.Reader:
+// "Read reads up to len(p) bytes" -- a short read is NOT an error; bufio.Reader.Peek / Discard:
+// fewer than n bytes come with an error).  pending(w) is a ghost counter: bytes handed to a
+// buffered writer that have not been flushed to the underlying stream yet.
+
+//@ afunc ext:io.Writer.Write
+//@   trusted io.Writer: err == nil implies n == len(p)
+//@   gset pending(this) = *
+//@   ensures 0 <= result0 && result0 <= len(p) && implies(isnil(result1), result0 == len(p))
+
+//@ afunc ext:io.Reader.Read
+//@   trusted io.Reader: 0 <= n <= len(p); a short read with a nil error is allowed
+//@   ensures 0 <= result0 && result0 <= len(p)
+
+//@ afunc ext:io.ReadFull
+//@   trusted io.ReadFull: err == nil iff exactly len(buf) bytes were read
+//@   ensures 0 <= n && n <= len(buf) && implies(isnil(err), n == len(buf))
+
+//@ afunc Writer.Flush
+//@   trusted bufio.Writer.Flush: on success nothing is left in the buffer
+//@   gset pending(this) = *
+//@   ensures implies(isnil(result), pending(this) == 0)
+
+//@ afunc Writer.Available
+//@   trusted
+//@   ensures 0 <= result
+
+//@ afunc Writer.AvailableBuffer
+//@   trusted
+//@   ensures len(result) == 0
+
+//@ afunc Reader.Peek
+//@   trusted bufio.Reader.Peek: fewer than n bytes come with an error
+//@   ensures 0 <= len(result0) && len(result0) <= n && implies(isnil(result1), len(result0) == n)
+
+//@ afunc Reader.Discard
+//@   trusted bufio.Reader.Discard: discarded < n comes with an error
+//@   ensures 0 <= result0 && result0 <= n && implies(isnil(result1), result0 == n)
+
+//@ afunc Reader.Size
+//@   trusted
+//@   ensures 0 <= result
+
+// ---- fixed-size writes: on success exactly the size of the value ----
+//@ afunc Write
+//@   property C08
+//@   gset pending(w) = *
+//@   ensures implies(isnil(err), n == len(c))
+
+//@ afunc WriteUint8
+//@   property C08
+//@   gset pending(w) = *
+//@   ensures implies(isnil(err), n == 1)
+
+//@ afunc WriteUint16
+//@   property C08
+//@   gset pending(w) = *
+//@   ensures implies(isnil(err), n == 2)
+
+//@ afunc WriteUint32
+//@   property C08
+//@   gset pending(w) = *
+//@   ensures implies(isnil(err), n == 4)
+
+//@ afunc WriteUint64
+//@   property C08
+//@   gset pending(w) = *
+//@   ensures implies(isnil(err), n == 8)
+
+// ---- fixed-size reads: on success exactly the size of the value was consumed ----
+//@ afunc Read
+//@   property C08
+//@   ensures implies(isnil(err), n == len(c))
+
+//@ afunc ReadUint8
+//@   property C08
+//@   havoc c
+//@   ensures implies(isnil(err), n == 1)
+
+//@ afunc ReadUint16
+//@   property C08
+//@   havoc c
+//@   ensures implies(isnil(err), n == 2)
+
+//@ afunc ReadUint32
+//@   property C08
+//@   havoc c
+//@   ensures implies(isnil(err), n == 4)
+
+//@ afunc ReadUint64
+//@   property C08
+//@   havoc c
+//@   ensures implies(isnil(err), n == 8)
+
+// a byte slice is read completely or an error is returned, whatever the chunking of the transport
+//@ afunc ReadUint8Slice
+//@   property C08
+//@   ensures implies(isnil(err), n == len(c))
+
+// ---- slice reads and writes loop over the internal buffer of the reader / writer: assumed ----
+//@ afunc ReadUint64Slice
+//@   trusted buffer-refill loop not verified: assumed to consume 8 bytes per element or fail
+//@   ensures implies(isnil(err), n == 8*len(c))
+
+//@ afunc ReadUint32Slice
+//@   trusted buffer-refill loop not verified: assumed to consume 4 bytes per element or fail
+//@   ensures implies(isnil(err), n == 4*len(c))
+
+//@ afunc ReadUint16Slice
+//@   trusted buffer-refill loop not verified: assumed to consume 2 bytes per element or fail
+//@   ensures implies(isnil(err), n == 2*len(c))
+
+//@ afunc WriteUint64Slice
+//@   trusted buffer-flush loop not verified: assumed to write 8 bytes per element or fail
+//@   gset pending(w) = *
+//@   ensures implies(isnil(err), n == 8*len(c))
+
+//@ afunc WriteUint32Slice
+//@   trusted buffer-flush loop not verified: assumed to write 4 bytes per element or fail
+//@   gset pending(w) = *
+//@   ensures implies(isnil(err), n == 4*len(c))
+
+//@ afunc WriteUint16Slice
+//@   trusted buffer-flush loop not verified: assumed to write 2 bytes per element or fail
+//@   gset pending(w) = *
+//@   ensures implies(isnil(err), n == 2*len(c))
+
+//@ afunc WriteUint8Slice
+//@   trusted recursive buffer-flush loop not verified: assumed to write 1 byte per element or fail
+//@   gset pending(w) = *
+//@   ensures implies(isnil(err), n == len(c))
